@@ -158,6 +158,16 @@ def run(shard, ctx):
                           pa == T.pc(b), v)
             ctx.case(("pairs-of", a), n=len(names))
         ctx.note_exhaustive("ordered pairs of names with <= %d accidentals" % shard["k"], len(names) ** 2)
+        # pure spellings far apart (nets -13..13): enharmonic wrap-arounds by one and two octaves of accidentals
+        pure = list(T.pure_names(13))
+        for a in pure:
+            pa = T.pc(a)
+            for b in pure:
+                st, v = ctx.call(notes.is_enharmonic, a, b)
+                ctx.check("enharmonic iff equal pc", st == "ok" and v == (pa == T.pc(b)), {"a": a, "b": b}, pa == T.pc(b), v,
+                          mechanism="enharmonic-pure-pairs")
+            ctx.case(("pure-pairs-of", a), n=len(pure))
+        ctx.note_exhaustive("ordered pairs of pure names with <= 13 sharps or flats", len(pure) ** 2)
         ctx.sample({"a": "B#", "b": "Dbb", "is_enharmonic": notes.is_enharmonic("B#", "Dbb")})
     elif kind == "long":
         rng = ctx.rng("long")
